@@ -349,6 +349,9 @@ func runBounded(eng *Engine, prop, name, tier string, seed int) (string, string)
 			}
 		}
 		note := fmt.Sprintf("bounded stand-in %s (%s; bound: %s): %s in %.1fs [bounded, never counted as proved]", name, e.Test, e.Bound, cases, time.Since(t0).Seconds())
+		if err != nil && (strings.Contains(out, "[build failed]") || strings.Contains(out, "[setup failed]")) {
+			return note + " does not compile against this tree (unexported API changed): decides nothing", ""
+		}
 		if strings.Contains(out, "BOUNDED-VIOLATION") || (err != nil && !strings.Contains(out, "BOUNDED-CASES")) {
 			dir := filepath.Join(outDir(eng), "replays", prop)
 			os.MkdirAll(dir, 0o755)
@@ -399,7 +402,7 @@ func runDemoCorpus(eng *Engine, prop string) (string, string) {
 	sort.Strings(dirs)
 	t0 := time.Now()
 	ran := 0
-	var failed []string
+	var failed, notCompiling []string
 	var outputs []string
 	runRe := regexp.MustCompile(`-run[ =]+'?"?([^'" ]+)`)
 	for _, d := range dirs {
@@ -440,6 +443,11 @@ func runDemoCorpus(eng *Engine, prop string) (string, string) {
 		}
 		ran++
 		out, err := run()
+		if err != nil && (strings.Contains(out, "[build failed]") || strings.Contains(out, "[setup failed]")) {
+			// the demonstration was written against an API this tree no longer has: it says nothing about this tree
+			notCompiling = append(notCompiling, filepath.Base(d))
+			continue
+		}
 		if err != nil {
 			out, err = run() // a timing-dependent demonstration gets a second chance
 		}
@@ -455,6 +463,9 @@ func runDemoCorpus(eng *Engine, prop string) (string, string) {
 		}
 	}
 	note := fmt.Sprintf("bounded stand-in behaviour_corpus (%d demonstration tests of %s from /verif/seeded, each with an oracle on the real code): %d failed in %.1fs [bounded, never counted as proved]", ran, prop, len(failed), time.Since(t0).Seconds())
+	if len(notCompiling) > 0 {
+		note += fmt.Sprintf("; %d do not compile against this tree (unexported API changed) and decide nothing: %s", len(notCompiling), strings.Join(notCompiling, ","))
+	}
 	if len(failed) > 0 {
 		dir := filepath.Join(outDir(eng), "replays", prop)
 		os.MkdirAll(dir, 0o755)
